@@ -14,6 +14,13 @@ Two small extensions of py2lean (AGENT_GUIDE: extended copies live in the target
   * an assignment to a subscript `X[...] = e` whose target text is a key of the target's `subst` binds
     the pseudo-variable `__sub_<param>` to the translation of `e` (evaluated BEFORE the binding, so the
     right-hand side sees the old value = the parameter).
+  * the oversampling factor healpy's inclusive mode is given: for an assignment `x = hp.query_disc(...)` /
+    `hp.query_polygon(...)` the pseudo-variable `__kw_fact` is bound (int mode) to the `fact=` keyword — an integer
+    literal, or a module-level integer constant (resolved from the module the function was found in), or healpy's
+    documented default 4 when the keyword is absent.  Anything else (an expression depending on the inputs) is
+    Untranslatable and the hand value 4 is used; the spy-based correspondence then compares the actual argument.
+    The property leaves this factor free: the theorems are stated for every value (Healpix.disc / .poly are indexed
+    by it) and the harness samples the contract at the value in use.
 Flags (`degin`, `degrees`) are parameters of type 'B' (Bool); the translator's if-merge produces
 `if flag then … else …`.
 """
@@ -63,10 +70,72 @@ if not getattr(py2lean.Translator, '_c09_subscript_patch', False):
     py2lean.Translator.stmt = _stmt
     py2lean.Translator._c09_subscript_patch = True
 
+
+if not getattr(py2lean, '_c09_module_stash', False):
+    _orig_find = py2lean.find_function
+
+    def _find(tree, qualname):
+        py2lean._c09_last_module = tree          # remember the module the function lives in (for constants)
+        return _orig_find(tree, qualname)
+
+    py2lean.find_function = _find
+    py2lean._c09_module_stash = True
+
+
+def _module_int_constant(name):
+    tree = getattr(py2lean, '_c09_last_module', None)
+    if tree is None:
+        return None
+    val = None
+    for node in tree.body:
+        if isinstance(node, ast.Assign) and len(node.targets) == 1 and isinstance(node.targets[0], ast.Name) \
+                and node.targets[0].id == name:
+            if isinstance(node.value, ast.Constant) and isinstance(node.value.value, int) and not isinstance(node.value.value, bool):
+                val = node.value.value if val is None else 'ambiguous'
+            else:
+                return None
+    return val if isinstance(val, int) else None
+
+
+HEALPY_DEFAULT_FACT = 4     # healpy.query_disc / query_polygon signature default (trusted; compared by the spy every run)
+
+if not getattr(py2lean.Translator, '_c09_fact_patch', False):
+    _prev_stmt = py2lean.Translator.stmt
+
+    def _stmt_fact(self, s):
+        if self.mode == 'int' and isinstance(s, ast.Assign) and isinstance(s.value, ast.Call) \
+                and isinstance(s.value.func, ast.Attribute) and s.value.func.attr in ('query_disc', 'query_polygon') \
+                and isinstance(s.value.func.value, ast.Name) and s.value.func.value.id == 'hp':
+            # never raise here (other properties translate functions of regions.py too): anything this extension cannot
+            # express makes `__kw_fact` opaque, so only the C09 outputs that ask for it become UNTRANSLATABLE
+            kw = [k for k in s.value.keywords if k.arg == 'fact']
+            npos = 4 if s.value.func.attr == 'query_disc' else 3       # fact is the 5th / 4th positional parameter
+            v = None
+            if any(k.arg is None for k in s.value.keywords) or len(s.value.args) > npos:
+                pass                                                   # fact passed positionally or through **kwargs
+            elif not kw:
+                v = HEALPY_DEFAULT_FACT
+            elif isinstance(kw[0].value, ast.Constant) and isinstance(kw[0].value.value, int) and not isinstance(kw[0].value.value, bool):
+                v = kw[0].value.value
+            elif isinstance(kw[0].value, ast.Name) and kw[0].value.id not in self.env:
+                v = _module_int_constant(kw[0].value.id)
+            if v is None or v < 0 or '__kw_fact' in self.env:
+                self.env['__kw_fact'] = ('?opaque?__kw_fact', 'N')    # not a literal / module constant, or a second query
+            else:
+                self.bind('__kw_fact', f'({v} : Nat)', 'N', set())
+        return _prev_stmt(self, s)
+
+    py2lean.Translator.stmt = _stmt_fact
+    py2lean.Translator._c09_fact_patch = True
+
 _F = 'AegeanTools/regions.py'
 _H = 'Aegean.Model.C09'
 
 TARGETS = [
+    dict(file=_F, func='Region.add_circles', mode='int', params={}, outputs=[('__kw_fact', 'discFact')],
+         fallback={'discFact': f'def discFact : Nat := {_H}.discFactHand'}),
+    dict(file=_F, func='Region.add_poly', mode='int', params={}, outputs=[('__kw_fact', 'polyFact')],
+         fallback={'polyFact': f'def polyFact : Nat := {_H}.polyFactHand'}),
     dict(file=_F, func='Region.sky2ang', mode='real', params={'col0': 'A'},
          subst={'theta_phi[:, 0]': 'col0'},
          outputs=[('__sub_col0', 'sky2angTheta')],
